@@ -39,4 +39,21 @@ def scrapedLabels (selfArg : String) (rets : List FuncWrap.RetStmt) : Except Err
     let cleaned := ls.map (strip selfArg)
     if cleaned.any (fun l => l.toList.contains '.') then .error .dotLeft else .ok (some cleaned)
 
+/-! ## the source slice of a returned element
+
+`ParseOutput.get_string` cuts the text of a returned element out of the source line with the column
+offsets of the `ast` node — which count UTF-8 BYTES. -/
+
+/-- the characters of `l` whose first byte lies in `[a, b)` (the line cut as bytes: what the code does) -/
+def cutBytes : List Char → Nat → Nat → Nat → List Char
+  | [], _, _, _ => []
+  | c :: cs, pos, a, b =>
+    (if a ≤ pos ∧ pos < b then [c] else []) ++ cutBytes cs (pos + c.utf8Size) a b
+
+/-- the same offsets used as CHARACTER positions (not what the code does) -/
+def cutChars (l : List Char) (a b : Nat) : List Char := (l.drop a).take (b - a)
+
+/-- byte offset at which the first occurrence of `w` starts in `l` -/
+def byteLen (l : List Char) : Nat := (l.map Char.utf8Size).sum
+
 end PwVerif.MacroLabels
